@@ -267,6 +267,11 @@ def run_linear(run):
                 log = [e for e in r.ps.get("custom_op_log", []) if e[0] == "quanto::qbytes_mm"]
                 if log and all(len(e[1]) == 3 and e[1][2] == dtype for e in log):
                     combined_scale_lemma(run, akind, wkind, dtype)
+            # (prec) no value on the way to the result is rounded to a float type with FEWER significant bits than the output dtype
+            from qvc import sym as _sym
+            coarser = [d_ for d_ in ("float16", "bfloat16") if _sym.FLOAT_DTYPES[d_][1] < _sym.FLOAT_DTYPES[dtype][1] and occurrences(got, f"narrow_{d_}")]
+            run.add(f"C07/{fam}/no-intermediate-coarser-than-the-output-dtype[{tag}]/path{pi}", r.hyps, z3.BoolVal(not coarser), "property", inst, {"rounded_to": coarser},
+                    replay=lambda m, s, i=dict(inst): replay(m, s, i, ("precision",)))
             # (fin) only the fully scaled contraction may be rounded to a 16-bit output dtype: an intermediate that still lacks a scale
             # factor can overflow although the reference is representable
             if dtype in ("float16", "bfloat16"):
@@ -275,7 +280,8 @@ def run_linear(run):
                             replay=rp_fin, timeout=30)
             for o in r.obligations:
                 if o.kind in ("torch-pre", "callee-pre", "assert"):
-                    run.add(f"C07/no-runtime-error[{tag}]/path{pi}/{o.name}@{o.loc}", o.hyps, o.goal, "property", inst, replay=rp_raise)
+                    run.add(f"C07/no-runtime-error[{tag}]/path{pi}/{o.name}@{o.loc}", o.hyps, o.goal, "property", inst,
+                            replay=rp if ("dense" in o.name or "exact-on-this-build" in o.name) else rp_raise)   # unchecked kernel preconditions show as wrong values
 
 
 def _valid(hyps, goal, ms=4000):
@@ -367,6 +373,8 @@ def aten_mm(run):
                         # transpose of a quantized (.., p, m) tensor (axis given for the transposed result: 0 <-> -1 swapped before)
                         src_axis = None if axis is None else (-1 if axis == 0 else 0)
                         base = OC.H(E2, q[:-2], src_axis, "float32").q(shape[:-2] + [shape[-1], shape[-2]], name=nm, axis=src_axis)
+                        if len(shape) == 2:
+                            return call_aten(E2, AtenOp("t"), [base], {})
                         return call_aten(E2, AtenOp("transpose"), [base, -2, -1], {})
                     return OC.H(E2, q, axis, "float32").q(shape, name=nm, axis=axis)
                 a = mk(qa, lead + [n, m], "A", axis_a)
@@ -573,6 +581,11 @@ def replay(model, seed, inst, clauses=("raise", "shape", "finite", "values")):
             if hasattr(qx, "_scale") and hasattr(qw, "_scale") and inst["activation"] != "qint4":
                 comb = (qx._scale * qw._scale)
                 subnormal_scale = bool((comb.abs() < torch.finfo(dt).tiny).any())   # the known finding D33 explains any difference here
+            if "precision" in clauses and not subnormal_scale and torch.isfinite(out).all() and inst["activation"] == "float":
+                # exact-arithmetic oracle at the accuracy of the output dtype: one-signed operands, tolerance 4 eps of the dtype
+                if not torch.allclose(out.double(), ref, rtol=4 * torch.finfo(dt).eps, atol=4 * torch.finfo(dt).eps * ref.abs().max().item()):
+                    return {"what": "result is less accurate than the output dtype allows (an intermediate was rounded to a coarser type)",
+                            "max_rel_err": ((out.double() - ref).abs().max() / ref.abs().max()).item(), "dtype_eps": torch.finfo(dt).eps, "rows_K_N": [rows, K, N]}
             if "values" in clauses and not subnormal_scale and torch.isfinite(out).all() and not torch.allclose(out.double(), ref, rtol=tol, atol=tol * ref.abs().max().item()):
                 return {"what": "values differ from the product of the dequantized operands", "max_abs_diff": (out.double() - ref).abs().max().item(), "rows_K_N": [rows, K, N]}
     return None
